@@ -317,7 +317,7 @@ class Lane(object):
         return self.copy()
 
     def tolist(self):
-        return GenList(self)
+        return GenList(self.copy())          # a new Python list: no longer the caller's (or anybody's) array
 
     def _map1(self, op):
         if op == 'neg':
